@@ -18,7 +18,7 @@ var zooTypes = map[string][]zf{
 	"Query": {{"title", "", ""}, {"count", "", ""}, {"ratio", "", ""}, {"flag", "", ""}, {"size", "", ""},
 		{"keeper", "Keeper", "keeper"}, {"keepers", "Keeper", ""}, {"animals", "Animal", ""}, {"things", "Thing", ""},
 		{"grid", "Cell", ""}, {"echo", "", "echo"}, {"tags", "", ""}, {"nums", "", ""}, {"find", "Keeper", "find"}, {"boss", "Keeper", ""},
-		{"ghost", "", ""}, {"relay", "", "relay"}, {"pick", "Thing", "pick"}, {"join", "", "join"}},
+		{"ghost", "", ""}, {"relay", "", "relay"}, {"pick", "Thing", "pick"}, {"join", "", "join"}, {"span", "", "span"}},
 	"Keeper": {{"name", "", ""}, {"age", "", ""}, {"pets", "Animal", ""}, {"friend", "Keeper", ""}, {"cells", "Cell", ""},
 		{"motto", "", "motto"}, {"rank", "", ""}, {"dogs", "Dog", ""}, {"ghost", "", ""}, {"nick", "", "nick"}, {"code", "", "code"}},
 	"Dog":      {{"name", "", ""}, {"legs", "", ""}, {"barks", "", ""}, {"owner", "Keeper", ""}, {"code", "", ""}},
@@ -67,6 +67,15 @@ func (r *Request) DrawVars(t *tape.Tape) map[string]interface{} {
 			out[n] = 20 + t.Draw(50)
 		case "Boolean":
 			out[n] = t.Bool(1, 2)
+		case "Range":
+			switch t.Draw(3) {
+			case 0:
+				out[n] = map[string]interface{}{}
+			case 1:
+				out[n] = map[string]interface{}{"lo": t.Draw(9), "parts": []interface{}{map[string]interface{}{}, map[string]interface{}{"inner": map[string]interface{}{}}}}
+			default:
+				out[n] = map[string]interface{}{"inner": map[string]interface{}{"tags": []interface{}{"v"}}}
+			}
 		}
 	}
 	return out
@@ -113,6 +122,9 @@ type ReqOpt struct {
 	// Nick allows Keeper.nick (nullable argument, Go parameter that cannot
 	// take null: a reflection root answers null / omitted with an error).
 	Nick bool
+	// Span allows span(r: Range): an input type whose fields have list and
+	// input-object defaults (nested), answered with the argument as received.
+	Span bool
 	// VarDirectivesInMeta puts @skip/@include with variables on selections
 	// beneath __schema / __type.
 	VarDirectivesInMeta bool
@@ -212,6 +224,23 @@ func (g *reqGen) argsFor(kind string) string {
 		} else {
 			parts = []string{"i: " + strconv.Itoa(g.t.Draw(12))}
 		}
+	case "span":
+		switch g.t.Draw(7) {
+		case 0:
+			return ""
+		case 1:
+			parts = []string{"r: {}"}
+		case 2:
+			parts = []string{"r: {lo: " + strconv.Itoa(g.t.Draw(9)) + "}"}
+		case 3:
+			parts = []string{"r: {inner: {}, parts: [{}, {inner: {hi: 2}}]}"}
+		case 4:
+			parts = []string{"r: {inner: {inner: {inner: {}}}, tags: null}"}
+		case 5:
+			parts = []string{"r: " + g.addVar("rg", "Range", map[string]interface{}{"parts": []interface{}{map[string]interface{}{}}}, "{hi: 4}")}
+		default:
+			parts = []string{"r: {parts: [{parts: [{}]}], hi: " + strconv.Itoa(g.t.Draw(9)) + "}"}
+		}
 	case "join":
 		switch g.t.Draw(4) {
 		case 0:
@@ -286,6 +315,10 @@ func (g *reqGen) fieldsOf(typ string) []zf {
 			}
 		case "join":
 			if !g.o.Nick {
+				continue
+			}
+		case "span":
+			if !g.o.Span {
 				continue
 			}
 		case "nick":
